@@ -17,7 +17,7 @@ def jobs():
         pid = os.path.basename(d).split("-")[0]
         out.append((pid, "N", "nt* " + os.path.basename(d), d + "/patch.diff"))
     # later waves still in their scratch worktrees (stored ones are replayed from seeded/)
-    for pre, kind, stem in (("ra", "B", "mut"), ("na", "N", "ref")):
+    for pre, kind, stem in ():
         for f in sorted(glob.glob(f"/tmp/{pre}_C*/_seed/{stem}*.diff")):
             pid = f.split("/")[2][3:]
             out.append((pid, kind, f"{pre} {pid}-{f[-6]}", f))
